@@ -262,6 +262,9 @@ static void * jerasure_rs_cauchy_init(struct ec_backend_args *args,
     /* validate EC arguments */
     {
         long long max_symbols;
+        if (w > 32) {
+            goto error;
+        }
         max_symbols = 1LL << w;
         if ((k + m) > max_symbols) {
             goto error;
